@@ -162,3 +162,84 @@ CONTRACTS.append(Contract("ofxtools.scripts.ofxget:_acctIsActive", args=[InfosAr
                           call=lambda it, fn, a: it.call(G._acctIsActive, [a[0][0]], {}),
                           ensures=[("active-only", "result == (infos[0].svcstatus == 'ACTIVE')")],
                           notes="SUPTXDL, XFERSRC, XFERDEST unconstrained", props=["C19"], symbolic_only=True))
+
+
+# ------------------------------------------------------------------------------------------- _merge_acctinfo
+# the entries a server lists, of the three known kinds and of a kind ofxget does not request (bill pay), in any of a few
+# orders; extract_acctinfos and the three parse_* functions are abstract here (own contracts above).  Proved: every
+# entry is handed to the parser OF ITS KIND, all entries of one kind in one call and in the order listed; entries of
+# an unknown kind reach no parser; the mappings so obtained are inserted as ONE layer right behind the command line
+# (position 1) and every other layer of the settings keeps its place.
+import collections as _c
+from contracts.ofxget_config import AChain
+
+KIND_CLASSES = {n: type(n, (), {}) for n in ("BANKACCTINFO", "CCACCTINFO", "INVACCTINFO", "BPACCTINFO")}
+PARSER_OF = {"BANKACCTINFO": "parse_bankacctinfos", "CCACCTINFO": "parse_ccacctinfos", "INVACCTINFO": "parse_invacctinfos"}
+
+
+class ListedArg(Arg):
+    def __init__(self, kinds, name="listed"):
+        self.kinds = kinds; self.name = name
+
+    def make(self, it):
+        return [KIND_CLASSES[k]() for k in self.kinds], []
+
+
+def call_merge_acctinfo(it, fn, a):
+    listed = a[0]
+    it.models[G.extract_acctinfos] = lambda it_, ar, kw: (log(it_, "extract", ar[0]), list(listed))[1]
+    for cls, fname in PARSER_OF.items():
+        it.models[getattr(G, fname)] = (lambda fname_: lambda it_, ar, kw: (log(it_, fname_, list(it_.iterate(ar[0]))), {"parsed-by": fname_})[1])(fname)
+    it.models[_c.ChainMap] = lambda it_, ar, kw: AChain(ar)
+    it.models[G.ChainMap] = it.models[_c.ChainMap]
+    layers = [{"layer": "command line"}, {"layer": "user file"}, {"layer": "defaults"}]
+    args = AChain(list(layers))
+    it.st.ghost["layers"] = layers
+    markup = Marker("markup")
+    it.call(G._merge_acctinfo, [args, markup], {})
+    return args
+
+
+def merged_ok(ghost, listed, result):
+    raise RuntimeError("symbolic only")
+
+
+def _merged_ok(it, a, kw):
+    ghost, listed, args = a
+    layers = ghost["layers"]
+    maps = args.maps
+    if len(maps) != 4 or maps[0] is not layers[0] or maps[2] is not layers[1] or maps[3] is not layers[2]:
+        return False
+    new = maps[1]
+    if not isinstance(new, AChain):
+        return False
+    want_calls = {}
+    for x in listed:
+        n = type(x).__name__
+        if n in PARSER_OF:
+            want_calls.setdefault(PARSER_OF[n], []).append(x)
+    got_calls = {}
+    for c in ghost["calls"]:
+        if c[0] in PARSER_OF.values():
+            if c[0] in got_calls:
+                return False             # one call per kind
+            got_calls[c[0]] = c[1]
+    if set(got_calls) != set(want_calls):
+        return False
+    for k, v in want_calls.items():
+        if len(got_calls[k]) != len(v) or any(g is not w for g, w in zip(got_calls[k], v)):
+            return False
+    # the new layer is made of exactly the mappings the parsers returned (an unknown kind contributes an empty one)
+    named = sorted(m["parsed-by"] for m in new.maps if isinstance(m, dict) and m)
+    return named == sorted(want_calls) and all(isinstance(m, dict) for m in new.maps)
+
+
+merged_ok._pyvc_model = _merged_ok
+merged_ok._pyvc_always = True
+_sp.merged_ok = merged_ok
+
+for kinds in ([], ["BANKACCTINFO"], ["INVACCTINFO", "BANKACCTINFO", "CCACCTINFO", "BANKACCTINFO"], ["BPACCTINFO", "CCACCTINFO", "BPACCTINFO"],
+              ["CCACCTINFO", "INVACCTINFO", "INVACCTINFO", "BANKACCTINFO", "BPACCTINFO", "CCACCTINFO"]):
+    CONTRACTS.append(Contract("ofxtools.scripts.ofxget:_merge_acctinfo", args=[ListedArg(kinds)], call=call_merge_acctinfo,
+                              ensures=[("each-kind-to-its-own-parser-and-one-layer-behind-the-command-line", "spec.ofxget.merged_ok(ghost, listed, result)")],
+                              notes=f"listed kinds {kinds}; extract_acctinfos and the parsers abstract", props=["C19"], symbolic_only=True))
